@@ -20,8 +20,11 @@ OUT = os.environ.get("VERIF_OUT") or VERIF     # evidence/ and replays/ go here 
 
 TIERS = {
     # per-task path cap, per-task wall budget (s), per-query timeout (ms), validation samples
-    "quick": dict(max_paths=4000, task_budget=150.0, qtimeout_ms=10000, nsamples=3, max_replays=6),
-    "thorough": dict(max_paths=60000, task_budget=700.0, qtimeout_ms=30000, nsamples=6, max_replays=10),
+    # xc_*: second-solver re-decision of a sample of `unsat` verdicts (symx/xcheck.py)
+    "quick": dict(max_paths=4000, task_budget=150.0, qtimeout_ms=10000, nsamples=3, max_replays=6,
+                  xc_k=6, xc_query_s=4, xc_wall_s=16),
+    "thorough": dict(max_paths=60000, task_budget=700.0, qtimeout_ms=30000, nsamples=6, max_replays=10,
+                     xc_k=30, xc_query_s=10, xc_wall_s=120),
 }
 
 
@@ -175,7 +178,7 @@ def run_task(args):
 
 def _run_task(hmod, hname, cfg, tier, seed, t0):
     import importlib
-    from . import core, loader, env as envm
+    from . import core, loader, env as envm, xcheck
     T = dict(TIERS[tier])
     h = getattr(importlib.import_module(hmod), hname)()
     T.update(getattr(h, "tier_overrides", {}).get(tier, {}))
@@ -192,8 +195,12 @@ def _run_task(hmod, hname, cfg, tier, seed, t0):
         h.body(e, cfg)
         core.cover("end-of-body reached", True)
 
+    xcheck.RES = xcheck.Reservoir(T["xc_k"], hash((seed, hname, json.dumps(cfg, sort_keys=True))) & 0xFFFFFFFF)
     st = core.explore(fn, max_paths=T["max_paths"], time_budget=T["task_budget"], qtimeout_ms=T["qtimeout_ms"],
                       check_defined=h.check_defined)
+    res, xcheck.RES = xcheck.RES, None
+    xc = xcheck.run(res, per_query_s=T["xc_query_s"], wall_budget_s=T["xc_wall_s"],
+                    save_dir=os.path.join(OUT, "replays"))
     # ---- summarise obligations
     by_name: dict[str, dict] = {}
     cands: dict[str, list] = {}
@@ -281,7 +288,7 @@ def _run_task(hmod, hname, cfg, tier, seed, t0):
                assumptions=st["assumptions"], notes=st["notes"], sample_paths=st["sample_paths"],
                confirmed=confirmed, unconfirmed=unconfirmed, validation=val, hashes=L.hashes,
                functions=loader.functions_encoded(), wall_s=round(time.time() - t0, 2),
-               n_exceptions=len(st["exceptions"]))
+               n_exceptions=len(st["exceptions"]), xcheck=xc)
     return out
 
 
@@ -366,6 +373,8 @@ def finish(prop, results, meta, tier, seed, t0):
                val_samples=0, val_real_ok=0, val_exact_ok=0, tasks=len(results), unknown_branches=0)
     functions, hashes, assumptions, covers_unmet, samples = set(), {}, [], [], []
     per_harness = {}
+    xtot = dict(offered=0, sampled=0, not_run=0, z3_4_8_12=dict(unsat=0, sat=0, unknown=0),
+                cvc5_1_0=dict(unsat=0, sat=0, unknown=0), by_stage={})
     if os.environ.get("VERIF_VERBOSE"):
         for r in results:
             if "infra_error" not in r:
@@ -403,6 +412,17 @@ def finish(prop, results, meta, tier, seed, t0):
         for a in r["assumptions"]:
             if a not in assumptions:
                 assumptions.append(a)
+        xc = r.get("xcheck") or {}
+        for k in ("offered", "sampled", "not_run"):
+            xtot[k] += xc.get(k, 0)
+        for sv in ("z3_4_8_12", "cvc5_1_0"):
+            for k, n in (xc.get(sv) or {}).items():
+                xtot[sv][k] += n
+        for k, n in (xc.get("by_stage") or {}).items():
+            xtot["by_stage"][k] = xtot["by_stage"].get(k, 0) + n
+        for dis in xc.get("disagreements", []):
+            harness_errors.append(f"solver disagreement in {r['harness']} {r['cfg']}: {dis['solver']} answers sat on a "
+                                  f"query z3 {_z3v()} decided unsat (stage {dis['stage']}); query saved as {dis['query']}")
         v = r["validation"]
         tot["val_samples"] += v["samples"]
         tot["val_real_ok"] += v["real_ok"]
@@ -502,6 +522,12 @@ def finish(prop, results, meta, tier, seed, t0):
             functions_encoded=sorted(functions), source_sha256=hashes,
             model_validation=dict(samples=tot["val_samples"], real_package_ok=tot["val_real_ok"],
                                   model_vs_real_observables_equal=tot["val_exact_ok"]),
+            second_solver_crosscheck=dict(
+                what=("deterministic per-task sample of the queries the deciding solver answered `unsat` (held "
+                      "obligations and pruned branches), exported as SMT-LIB2 and re-decided by the z3 4.8.12 and cvc5 "
+                      "1.0 binaries; `sat` from either is a harness error, `unknown`/time-out is not agreement"),
+                unsat_verdicts_offered=xtot["offered"], sampled=xtot["sampled"], not_run=xtot["not_run"],
+                by_stage=xtot["by_stage"], z3_4_8_12=xtot["z3_4_8_12"], cvc5_1_0=xtot["cvc5_1_0"]),
             known_findings_hit=[dict(id=k, count=v["count"]) for k, v in known_hits.items()],
             harness_errors=harness_errors[:20],
             samples=samples or [dict(note="no completed path")],
@@ -518,6 +544,8 @@ def finish(prop, results, meta, tier, seed, t0):
     print(f"{prop} tier={tier}: tasks={tot['tasks']} paths={tot['paths']} obligations={tot['obligations']} "
           f"discharged={tot['discharged']} refuted={tot['sat']} inconclusive={tot['unknown']} queries={tot['queries']} "
           f"solver_s={tot['solver_s']:.1f} wall_s={wall:.1f} exit={exit_code}")
+    print(f"  second-solver cross-check of {xtot['sampled'] - xtot['not_run']} sampled unsat verdicts: z3-4.8.12 "
+          f"{xtot['z3_4_8_12']}  cvc5-1.0 {xtot['cvc5_1_0']}")
     return exit_code
 
 
